@@ -168,6 +168,7 @@ def run(ctx):
     check_roa_limits(ctx, f)
     check_prefix_family_limits(ctx, f)
     K.check_serial_start(ctx, f)
+    check_key_id_follows_key(ctx, f)
     # which time form is written: only encode_varied chooses (by year); the manifest profile fixes GeneralizedTime
     for nm, want in (("encode_utc_time", ["repository::x509::Time::encode_varied"]),
                      ("encode_generalized_time", ["repository::manifest::ManifestContent::encode_ref", "repository::x509::Time::encode_varied"])):
@@ -298,3 +299,81 @@ def check_prefix_family_limits(ctx, f):
         ctx.ob("R-REG", "%s:family-limit" % short(fn), ok,
                "%s accepts a prefix iff its length ≤ the family maximum (on every ordering of the two numbers)" % short(fn),
                where=b.loc, detail=det)
+
+
+
+def check_key_id_follows_key(ctx, f):
+    """The builders keep the subject key identifier coupled to the subject key: every function that is not a decoder and
+    writes the key field or the identifier field of a certificate body writes both, and the identifier it writes is
+    `key_identifier()` of exactly the key it stores (the validator — C01 — rejects anything else, so a built certificate
+    whose two fields drift apart is not accepted by the library's own validator)."""
+    n_writers = 0
+    for adt, rec in sorted(f.adts.items()):
+        if rec.get("kind") != "Struct" or not rec.get("variants"):
+            continue
+        flds = {fl["name"]: fl["ty"] for fl in rec["variants"][0]["fields"]}
+        keyf = [n for n, t in flds.items() if t == "crypto::keys::PublicKey"]
+        idf = [n for n, t in flds.items() if t == "crypto::keys::KeyIdentifier" and "subject" in n]
+        if len(keyf) != 1 or len(idf) != 1:
+            continue
+        keyf, idf = keyf[0], idf[0]
+        writers = {}        # fn -> {"key": [(term, bb, idx)], "id": [...]}
+        for n, b in f.bodies.items():
+            if is_derived(b):
+                continue
+            sy = None
+            for bi, blk in enumerate(b.blocks):
+                if blk.get("cleanup"):
+                    continue
+                for si, st in enumerate(blk["stmts"]):
+                    if st["s"] != "assign":
+                        continue
+                    rv = st["rv"]
+                    if rv["r"] == "agg" and rv.get("ak") == "adt" and rv.get("adt") == adt:
+                        sy = sy or K.sym_of(b)
+                        t = strip_deep(sy.rvalue(rv))
+                        d = dict(t[3])
+                        w = writers.setdefault(n, {"key": [], "id": []})
+                        if keyf in d:
+                            w["key"].append((strip_deep(d[keyf]), bi, si))
+                        if idf in d:
+                            w["id"].append((strip_deep(d[idf]), bi, si))
+                        continue
+                    pr = st["pl"]["p"]
+                    last = pr[-1] if pr else None
+                    if last and last[0] == "f" and len(last) > 2 and last[2] == adt and str(last[1]) in (keyf, idf):
+                        sy = sy or K.sym_of(b)
+                        w = writers.setdefault(n, {"key": [], "id": []})
+                        w["key" if str(last[1]) == keyf else "id"].append((strip_deep(sy.rvalue(rv)), bi, si))
+        for n, w in sorted(writers.items()):
+            rf = root_fn(f, n)
+            ins = (f.fns.get(rf) or {}).get("inputs") or []
+            if any("decode::" in i for i in ins) or re.search(r"::(decode|take_from|from_constructed)\b", rf):
+                continue                 # a decoder stores what the certificate says; the validator compares the two
+            b = f.body(n)
+            n_writers += 1
+            keys = [render(K.expand_accessors(f, t)) for t, _, _ in w["key"]]
+            bad = []
+            if not w["key"] or not w["id"]:
+                bad.append("writes only the %s field" % ("key" if w["key"] else "identifier"))
+            for t, bi, si in w["id"]:
+                t2 = K.expand_accessors(f, t)
+                m = None
+                for x in (t, t2):
+                    if x[0] == "call" and (x[3] or {}).get("name") == "key_identifier" and len(x[2]) == 1:
+                        m = strip_deep(x[2][0])
+                if m is None:
+                    bad.append("identifier is not key_identifier(..): %s" % render(t)[:120])
+                    continue
+                src = render(m)
+                if src in keys:
+                    continue
+                # read back from the key field itself: fine only after the key field has been written
+                if re.search(r"\.%s$" % re.escape(keyf), src) and any(
+                        (kb == bi and ksi < si) or (kb != bi and kb in b.dominators().get(bi, ())) for _, kb, ksi in w["key"]):
+                    continue
+                bad.append("identifier is taken from `%s`, the key stored is %s" % (src[:100], keys))
+            ctx.ob("R-SIB", "%s:key-id-follows-key[%s]" % (short(adt), short(rf)), not bad,
+                   "%s writes %s.%s and %s.%s together, the identifier being key_identifier() of the key it stores"
+                   % (short(rf), short(adt), keyf, short(adt), idf), where=b.loc, detail=bad or None)
+    ctx.floor("R-SIB", "non-decoder writers of a (subject key, subject key identifier) pair", n_writers, 3)
